@@ -5,7 +5,7 @@
    flags of sequences, [PEnd] and the EOF early exit of the sequence search.
    The pumping argument that removes the [compat] hypothesis is in Pump.v. *)
 From Coq Require Import String List NArith Bool Arith Lia.
-From Parsley Require Import Obs Base Grammar Engine EngineFacts SetMapFacts Spec.
+From Parsley Require Import Obs Base Grammar Engine TermFacts TermTok EngineFacts SetMapFacts Spec.
 Import ListNotations.
 Open Scope N_scope.
 
@@ -13,7 +13,8 @@ Open Scope N_scope.
 Fixpoint endfree (e : pexpr) : bool :=
   match e with
   | PEnd => false
-  | PTerm _ | PEmpty | PRef _ => true
+  | PTerm t => term_noeof t      (* a literal terminal whose token is "EOF" (e.g. terminal.Word("eof")) is an End for seq.go *)
+  | PEmpty | PRef _ => true
   | PMemo _ p | POpt p | PName _ p | PLeftTrim _ p | PRightTrim _ p | PSuppress p | PSingle p => endfree p
   | PAny ps | PChoice ps | PSeq _ _ _ _ ps => forallb endfree ps
   end.
@@ -58,13 +59,10 @@ Proof.
   destruct (q_single q); [apply Hn; left; reflexivity|reflexivity].
 Qed.
 
-Lemma noeof_term inp t p res err : term_parse inp t p = (res, err) -> noeof res.
+Lemma noeof_term inp t p res err : term_noeof t = true -> term_parse inp t p = (res, err) -> noeof res.
 Proof.
-  destruct t as [ch]. unfold term_parse. intros H n Hin.
-  assert (G : forall x, In n [NTerm [ch] (VRune ch) p (p + 1)] -> x = is_eof_node n -> x = false).
-  { intros x [Hx|[]] ->. rewrite <- Hx. unfold is_eof_node. cbn [node_token tok_EOF list_N_eqb]. apply andb_false_r. }
-  destruct (byte_at inp p) as [b|]; [destruct (b =? ch)|]; inversion H; subst res err;
-    [apply (G _ Hin eq_refl) | destruct Hin | destruct Hin].
+  intros Ht H n Hin. destruct (term_parse_cases inp t p res err H) as [->|[m [-> ->]]]; [destruct Hin|].
+  destruct Hin as [<-|[]]. exact (term_parse_noeof inp t p m None Ht H).
 Qed.
 
 (* ---------- the invariant ---------- *)
@@ -189,7 +187,7 @@ Section C.
       - (* PTerm *)
         destruct (term_parse inp t p) as [res0 err0] eqn:Et. inversion H; subst.
         split; [destruct ns as [|? ?]; [destruct err|]; exact Hc|].
-        split; [intros _; eapply noeof_term; exact Et|].
+        split; [intros Hef; eapply noeof_term; [exact Hef|exact Et]|].
         intros l' _ d Hv _. inversion Hv; subst.
         match goal with Hx : term_parse _ _ _ = ([_], None) |- _ => rewrite Et in Hx; inversion Hx; subst end.
         left; reflexivity.
@@ -591,7 +589,7 @@ End C.
 (* ---------- [eok] cannot be dropped from the invariant: the EOF early exit loses derivations ---------- *)
 (* SeqOf [Any [End; Empty]] on the empty input: both SEQ[EOF] and SEQ[EMPTY] are derivations within
    the bound, but the sequence search stops after emitting the one that ends with the EOF node. *)
-Definition ee_inp : input := {| i_data := []; i_offset := 1 |}.
+Definition ee_inp : input := (mk_input [] 1).
 Definition ee_root : pexpr := PSeq SeqOf INone false None [PAny [PEnd; PEmpty]].
 Definition ee_q : seqinfo := {| q_kind := SeqOf; q_ip := INone; q_single := false; q_ps := [PAny [PEnd; PEmpty]] |}.
 Definition ee_d : dtree := DSeq ee_q 1 [DAlt 1 (DEmpty 1)].
@@ -635,7 +633,7 @@ Ltac compat_tac := cbn [compat]; repeat match goal with |- _ /\ _ => split end; 
 
 Definition tb (p : N) : dtree := DTerm (NTerm [98] (VRune 98) p (p + 1)).
 Definition ta (p : N) : dtree := DTerm (NTerm [97] (VRune 97) p (p + 1)).
-Definition lr_inp : input := {| i_data := [97; 98; 98]; i_offset := 1 |}.
+Definition lr_inp : input := (mk_input [97; 98; 98] 1).
 
 (* P -> P b | a   on "abb" *)
 Definition lr_alt : list pexpr := [PRef 0; PTerm (TRune 98)].
@@ -713,3 +711,15 @@ Proof.
   apply (complete_top lr_inp hl_rules hl_site hl_wf hl_mono hl_ef 100 (PRef 0) ns cp err c);
     [vm_compute; reflexivity|reflexivity|reflexivity|exact E|exact Hv|exact Hc].
 Qed.
+
+(* ---------- literal terminals ---------- *)
+(* the hypotheses [mono] / [endfree] of the completeness theorems hold for grammars over literal terminals
+   (here the left-recursive sum S -> S "+" INTEGER | INTEGER), except for a literal whose node carries the
+   token "EOF": combinator/seq.go recognises the end-of-input node by its token, so the node of
+   terminal.Word(s, "eof", v) (token = strings.ToUpper(word)) or terminal.Op("EOF") counts as [PEnd] *)
+Example lit_mono_endfree :
+  let sum := PAny [PSeq SeqOf INone false None [PRef 0; PTerm (TLit (LOp [43])); PTerm (TLit LInteger)]; PTerm (TLit LInteger)] in
+  mono sum = true /\ endfree sum = true /\
+  endfree (PTerm (TLit (LWord [101; 111; 102]))) = false /\ endfree (PTerm (TLit (LOp [69; 79; 70]))) = false /\
+  endfree (PTerm (TLit (LWord [101; 111]))) = true.
+Proof. repeat split; reflexivity. Qed.
